@@ -74,6 +74,15 @@ type gen struct {
 	pending map[uint64]byte // id -> kind of nodes added by a proposed config change, not yet started
 	blocked map[uint64]bool
 	quiesced map[uint64]int // remaining quiesced ticks of a replica
+	// nboot: number of bootstrap entries. The engine hands the bootstrap entries of an initial
+	// member to the state machine as ONE task and serves snapshot requests between tasks, so no
+	// snapshot lies inside the bootstrap prefix.
+	nboot int
+	// removedEver: replicas some RemoveNode request named. The text form of a snapshot does not
+	// carry the removed set, so a replica restarted from a snapshot forgets it and would accept
+	// the return of a removed replica under another kind - an operator error the real
+	// membership (which snapshots the removed set) rejects.
+	removedEver map[uint64]bool
 }
 
 func (g *gen) do(op string) raftsim.Result { return g.Do(op) }
@@ -99,6 +108,14 @@ func (g *gen) liveIDs() []uint64 {
 }
 
 func (g *gen) cc(id, t, target uint64) {
+	if g.removedEver == nil {
+		g.removedEver = map[uint64]bool{}
+	}
+	if pb.ConfigChangeType(t) == pb.RemoveNode {
+		g.removedEver[target] = true
+	} else if g.removedEver[target] {
+		return
+	}
 	cc := raftsim.MakeCC(t, target)
 	g.do(fmt.Sprintf("CC %d %d %d %d %s", id, g.nextKey, t, target, vh.Hex(pb.MustMarshal(&cc))))
 }
@@ -127,7 +144,7 @@ func (g *gen) startPending() {
 func (g *gen) snapshot(id uint64, keep uint64) {
 	n := g.c.Nodes[id]
 	st := raftsim.Inspect(n)
-	if n.Applied > n.Snapshot.Index && n.Applied >= st.FirstIndex && n.Kind != 'W' {
+	if n.Applied > n.Snapshot.Index && n.Applied >= st.FirstIndex && n.Kind != 'W' && n.Applied >= uint64(g.nboot) {
 		ss := pb.Snapshot{Index: n.Applied, Term: termAt(st.Entries, st.FirstIndex, st.MarkerTerm, n.Applied), Filepath: "f", FileSize: 1}
 		ss.Membership.Addresses = map[uint64]string{}
 		ss.Membership.NonVotings = map[uint64]string{}
@@ -152,7 +169,13 @@ func (g *gen) snapshot(id uint64, keep uint64) {
 
 func (g *gen) update(id uint64) { g.Update(id) }
 
-func (g *gen) apply(id uint64, max int) { g.Apply(id, max) }
+func (g *gen) apply(id uint64, max int) {
+	// the bootstrap entries are applied in one go (see gen.nboot)
+	if n := g.c.Nodes[id]; n != nil && n.Applied < uint64(g.nboot) && max < g.nboot {
+		max = g.nboot
+	}
+	g.Apply(id, max)
+}
 
 func (g *gen) deliver() {
 	if len(g.Pool) == 0 {
@@ -185,7 +208,7 @@ func generate(r *vh.Rand, steps int) (string, []string) {
 	c.CQ = r.Bool()
 	c.PV = r.Bool()
 	nv := []int{1, 2, 3, 3, 3, 3, 4, 5, 5}[r.Intn(9)]
-	g := &gen{r: r, c: c, started: map[uint64]byte{}, pending: map[uint64]byte{}, blocked: map[uint64]bool{}, quiesced: map[uint64]int{}, nextKey: 100}
+	g := &gen{r: r, c: c, started: map[uint64]byte{}, pending: map[uint64]byte{}, blocked: map[uint64]bool{}, quiesced: map[uint64]int{}, nextKey: 100, nboot: nv}
 	g.Driver = &raftsim.Driver{C: c}
 	g.Record = func(op string, rt uint64) { g.ops = append(g.ops, fmt.Sprintf("%s @%d", op, rt)) }
 	var init []string
@@ -419,6 +442,12 @@ func (mo *monitor) observe(c *raftsim.Cluster, op string, res raftsim.Result) {
 		}
 	case "ACC":
 		mo.ccs++
+	case "MUT":
+		// --- C02: what a replica sent is what arrives (or nothing): the message delivered next was
+		// changed by its sender after it had been handed to the transport
+		for _, tag := range []string{"C02", "C19"} {
+			mo.v(tag, "a message to replica %d was changed by its sender after it was handed to the transport (entries alias the sender's log buffer)", n.ID)
+		}
 	case "RR":
 		// --- C07/C18: after restoring a snapshot the replica's voters, non-voting members and
 		// witnesses are exactly the snapshot's membership (n.Mem was just set from it)
@@ -550,7 +579,12 @@ func (mo *monitor) observe(c *raftsim.Cluster, op string, res raftsim.Result) {
 	}
 	if res.Update != nil {
 		ud := res.Update
-		// apply stream: strictly +1 within an incarnation, only committed entries
+		// apply stream: strictly +1 within an incarnation, only committed entries. An Update may
+		// carry a snapshot AND the committed entries that follow it (the replica restored the
+		// snapshot and appended to it before the Update was taken): the snapshot comes first
+		if !pb.IsEmptySnapshot(ud.Snapshot) {
+			mo.appliedNext[n.ID] = ud.Snapshot.Index
+		}
 		for _, e := range ud.CommittedEntries {
 			if last, ok := mo.appliedNext[n.ID]; ok && e.Index != last+1 {
 				mo.v("C02", "replica %d handed out index %d for apply after %d", n.ID, e.Index, last)
@@ -562,9 +596,6 @@ func (mo *monitor) observe(c *raftsim.Cluster, op string, res raftsim.Result) {
 			if rec, ok := mo.committed[e.Index]; ok && rec.term != e.Term {
 				mo.v("C02", "replica %d applies term %d at index %d, committed term is %d", n.ID, e.Term, e.Index, rec.term)
 			}
-		}
-		if !pb.IsEmptySnapshot(ud.Snapshot) {
-			mo.appliedNext[n.ID] = ud.Snapshot.Index
 		}
 		for _, m := range ud.Messages {
 			// --- C03: one vote per term, also across restarts
@@ -657,7 +688,20 @@ func runCases(a vh.Args) {
 			res := c.Exec(op, rt, true)
 			obs.Printf("%s %d %s\n", id, k, res.Obs)
 			if res.Panicked {
-				mo.v(prop, "implementation panicked at op %d (%s)", k, strings.Fields(op)[0])
+				// the panics with which a replica refuses a snapshot / config change that contradicts
+				// the kind it was started with are the code's answer to an operator error, not a
+				// fault the properties cover (Driver.FairPhase classifies them the same way)
+				operator := false
+				for _, kw := range []string{"is not a nonVoting", "is not witness", "is witness", "converting to", "could not promote"} {
+					if strings.Contains(res.PanicMsg, kw) {
+						operator = true
+					}
+				}
+				if operator {
+					st.Count("inconclusive.operator-error-panic")
+				} else {
+					mo.v(prop, "implementation panicked at op %d (%s): %s", k, strings.Fields(op)[0], res.PanicMsg)
+				}
 				break
 			}
 			mo.observe(c, op, res)
